@@ -10,7 +10,8 @@ CHECK = dict(
          "concurrent workloads on a real node (forked block tree, really signed verifications that justify a side-branch checkpoint "
          "and change the best chain, transactions, queries), half of them under the Go race detector, with call begin/end and "
          "lock/channel trace points validated by TLC against TraceNodeLocks.tla; a call that does not return (watchdog, reproduced) "
-         "or a race report is the violation.",
+         "or a race report is the violation."
+         " Rounds of sustained contention (6 submitters, pool readers, a block feeder, a finality reader) watch progress for lock windows that the traced workloads are too short to hit; only a stall seen twice is reported.",
     design_ref="DESIGN.md §6 C37",
     note="Leaf sections (reads of Casper.mu, cond.L, txpool calls of callers) are one step; data races are decided by the race "
          "detector on the executed workloads, not by TLC; wallet/p2p/RPC goroutines are not driven. Known findings: authCachedMsg "
